@@ -75,12 +75,15 @@ Canon(c) ==
       [] OTHER -> c
 
 \* ---- text grammar, on tokens:
-\*   [name, paren, pkind, pval, trailing]
+\*   [name, paren, pkind, pval, trailing, close]
 \*   pkind in {"none", "empty", "nat", "neg", "alpha", "overflow"}
 \* "well-formed" = Name for the parameterless variants, Name(nat) for the others
+\* `close': the closing parenthesis is there (a missing one makes the text malformed, but a
+\* parameter that is not a number must be rejected with or without it)
+Closed(t) == IF "close" \in DOMAIN t THEN t.close ELSE TRUE
 WellFormed(t) ==
     \/ t.name \in ParamLess /\ ~t.paren /\ t.pkind = "none" /\ ~t.trailing
-    \/ t.name \in Parametric /\ t.paren /\ t.pkind = "nat" /\ ~t.trailing
+    \/ t.name \in Parametric /\ t.paren /\ t.pkind = "nat" /\ ~t.trailing /\ Closed(t)
 \* classes the property says must be rejected
 MustReject(t) ==
     \/ t.name \notin (ParamLess \cup Parametric)                      \* empty or unknown name
